@@ -74,6 +74,23 @@ impl<'a> Sp<'a> {
         let cfg = self.cfg.clone();
         self.ctx.report(&cfg, kind, opsig, detail, desc);
     }
+    /// Drain allocator-monitor events (layout mismatches, damaged guard zones, writes to released blocks) into reports.
+    pub fn drain_alloc(&mut self, opsig: &str, desc: &str) {
+        if monalloc::mode() == monalloc::MODE_GUARD {
+            monalloc::scan();
+        }
+        let (evs, _) = monalloc::drain_events();
+        for e in evs {
+            match e.kind {
+                b'I' => self.viol("alloc-invalid", opsig, format!("invalid layout reached the allocator: size={:#x} align={}", e.size, e.align), desc),
+                b'M' => self.viol("alloc-layout", opsig, format!("realloc/dealloc presented layout (size={}, align={}) for a block allocated with (size={}, align={})", e.size, e.align, e.aux, e.aux2), desc),
+                b'G' => self.viol("guard", opsig, format!("heap block #{} ({} bytes): guard zone modified", e.aux, e.size), desc),
+                b'Q' => self.viol("stale-write", opsig, format!("heap block #{} was written after it was released", e.aux), desc),
+                b'F' => self.viol("alloc-layout", opsig, format!("heap block #{} released twice", e.aux), desc),
+                _ => {}
+            }
+        }
+    }
     /// Drain registry violations into reports.
     pub fn drain_reg(&mut self, opsig: &str, desc: &str) {
         for v in reg::take_violations() {
@@ -1459,7 +1476,9 @@ pub fn c10_large(ctx: &mut Ctx) {
     }
     let mut sp = Sp::new(ctx, "large-capacity", "Heap-large".into());
     sp.ctx.ordinal = 0;
-    monalloc::set_mode(monalloc::MODE_OFF);
+    // layouts, guard zones and released blocks are watched by the allocator monitor (C05 / C18 read those kinds)
+    monalloc::set_mode(monalloc::MODE_GUARD);
+    let _ = monalloc::drain_events();
     fn sizes<T>() -> Vec<usize> {
         let sz = size_of::<T>().max(1);
         let mut bytes: Vec<usize> = Vec::new();
@@ -1477,17 +1496,24 @@ pub fn c10_large(ctx: &mut Ctx) {
     }
     fn run<T: Elem>(sp: &mut Sp) {
         for n in sizes::<T>() {
-            for scenario in 0..5u8 {
+            for scenario in 0..6u8 {
                 if !sp.take() {
                     continue;
                 }
                 reg::reset();
-                let opsig = ["with_capacity", "reserve_exact", "reserve", "release-then-reserve", "typed.reserve_exact"][scenario as usize];
+                let opsig = ["with_capacity", "reserve_exact", "reserve", "release-then-reserve", "typed.reserve_exact", "shrink-then-regrow"][scenario as usize];
                 let desc = format!("{}:Heap|{opsig}({n})", T::NAME);
                 let ids: Vec<Id> = (1..=3).map(|i| if T::ID_BITS == 0 { 0 } else { i }).collect();
                 let fill = |v: &mut AnyVec<dyn TNone, Heap>| ids.iter().for_each(|i| v.push(AnyValueWrapper::new(T::make(*i))));
+                let live_before = monalloc::stats().live;
+                monalloc::window_open();
                 let r = guarded(|| -> Result<(), String> {
                     let intact = |v: &AnyVec<dyn TNone, Heap>| -> Result<(), String> {
+                        // the storage pointer is aligned for the element type at every size (reported as kind `align` below)
+                        let base = v.as_bytes().as_ptr() as usize;
+                        if base % align_of::<T>() != 0 {
+                            return Err(format!("ALIGN storage pointer {base:#x} of a vector with capacity {} is not aligned to {}", v.capacity(), align_of::<T>()));
+                        }
                         match snap_ids::<T, _, _>(v) {
                             Ok(got) if got == ids => Ok(()),
                             other => Err(format!("elements changed: {other:?}, expected {ids:?}")),
@@ -1511,6 +1537,30 @@ pub fn c10_large(ctx: &mut Ctx) {
                             let want = c.min(m.max(3));
                             if v.capacity() != want {
                                 return Err(format!("shrink_to({m}) from capacity {c} ends at {} instead of {want}", v.capacity()));
+                            }
+                            intact(&v)
+                        }
+                        5 => {
+                            // big, shrink to the three elements, grow back to just below the old size, then use all of the
+                            // spare capacity (a block size remembered from before the shrink would be written past)
+                            let mut v: AnyVec<dyn TNone, Heap> = AnyVec::with_capacity::<T>(n);
+                            fill(&mut v);
+                            v.shrink_to_fit();
+                            if v.capacity() != 3.min(n.max(3)) && n >= 3 {
+                                return Err(format!("shrink_to_fit from capacity {n} with len 3 ends at {}", v.capacity()));
+                            }
+                            let back = n.saturating_sub(4).max(1);
+                            v.reserve_exact(back);
+                            if v.capacity() < 3 + back {
+                                return Err(format!("len 3, reserve_exact({back}) leaves capacity {}", v.capacity()));
+                            }
+                            let cap = v.capacity();
+                            let spare = v.spare_bytes_mut();
+                            if spare.len() != (cap - 3) * size_of::<T>() {
+                                return Err(format!("spare_bytes_mut() is {} bytes for capacity {cap}, len 3", spare.len()));
+                            }
+                            for b in spare.iter_mut() {
+                                b.write(0xAB);
                             }
                             intact(&v)
                         }
@@ -1563,10 +1613,17 @@ pub fn c10_large(ctx: &mut Ctx) {
                         }
                     }
                 });
+                monalloc::window_reset();
                 match r {
                     Ok(Ok(())) => {}
+                    Ok(Err(m)) if m.starts_with("ALIGN ") => sp.viol("align", opsig, m[6..].to_string(), &desc),
                     Ok(Err(m)) => sp.viol("capacity", opsig, m, &desc),
                     Err(m) => sp.viol("capacity", opsig, format!("panicked: {m}"), &desc),
+                }
+                sp.drain_alloc(opsig, &desc);
+                let live_after = monalloc::stats().live;
+                if live_after != live_before {
+                    sp.viol("alloc-leak", opsig, format!("{} heap block(s) left allocated", live_after as i64 - live_before as i64), &desc);
                 }
                 sp.drain_reg(opsig, &desc);
                 sp.ctx.stats.bump("large_capacity_requests", 1);
@@ -1578,7 +1635,9 @@ pub fn c10_large(ctx: &mut Ctx) {
     run::<W8d>(&mut sp);
     run::<S24d>(&mut sp);
     run::<A32d>(&mut sp);
+    run::<A64d>(&mut sp);
     run::<L160d>(&mut sp);
+    monalloc::set_mode(monalloc::MODE_OFF);
 }
 #[cfg(not(feature = "alloc"))]
 pub fn c10_large(_ctx: &mut Ctx) {}
@@ -1774,6 +1833,23 @@ pub fn c14_large(ctx: &mut Ctx) {
             if n != len - 7 || !x || left != 1 || v.len() != 2 {
                 return Err(format!("drain(..{}) of {}: len()={n}, nth hit {x}, {left} left, vector length afterwards {}", len - 7, len - 5, v.len()));
             }
+            // splices whose removed range / replacement count do not fit 31 bits
+            unsafe { v.set_len(len) };
+            let sp_it = v.splice(3..len - 5, [AnyValueWrapper::new(Z0), AnyValueWrapper::new(Z0)]);
+            let n = sp_it.len();
+            drop(sp_it);
+            if n != len - 8 || v.len() != 10 {
+                return Err(format!("splice(3..{}, 2 items) of {len}: len()={n} (expected {}), vector length afterwards {} (expected 10)", len - 5, len - 8, v.len()));
+            }
+            unsafe { v.set_len(len) };
+            {
+                let mut tv = v.downcast_mut::<Z0>().unwrap();
+                let d = tv.splice(2..len - 2, std::iter::repeat(Z0).take(7));
+                drop(d);
+            }
+            if v.len() != 11 {
+                return Err(format!("typed splice(2..{}, 7 items) of {len}: vector length afterwards {} (expected 11)", len - 2, v.len()));
+            }
             Ok(())
         });
         match r {
@@ -1787,3 +1863,111 @@ pub fn c14_large(ctx: &mut Ctx) {
 }
 #[cfg(not(feature = "alloc"))]
 pub fn c14_large(_ctx: &mut Ctx) {}
+
+// ---------------------------------------------------------------------------------------------
+// C05: a typed drain / splice handle does not keep its typed view borrowed (the C16 finding D12), so safe code can grow the
+// vector while the handle is alive. On the pinned tree that is harmless (the handle re-reads the storage pointer at every
+// step); an implementation that caches the pointer would read the released block.
+
+pub fn c05_live_growth(ctx: &mut Ctx) {
+    if cfg!(miri) {
+        // the interleaving itself trips the borrow models (an exclusive reborrow of the view between two uses of the handle)
+        return;
+    }
+    let mut sp = Sp::new(ctx, "live-handle-growth", "growth-under-live-typed-handle".into());
+    sp.ctx.ordinal = 0;
+    fn run<T: Elem, M: MemCaps>(sp: &mut Sp)
+    where
+        M::Mem: any_vec::mem::MemResizable,
+    {
+        for what in 0..4u8 {
+            if !sp.take() {
+                continue;
+            }
+            reg::reset();
+            let opsig = ["typed.drain+reserve", "typed.drain+reserve_exact", "typed.splice+reserve", "typed.splice+push-growth"][what as usize];
+            let desc = format!("{}:{}|{opsig}", T::NAME, M::NAME);
+            let mask = if T::ID_BITS == 0 { 0 } else { (1u64 << T::ID_BITS.min(32)) - 1 };
+            let id = |i: u64| i & mask;
+            monalloc::window_open();
+            let r = guarded(|| -> Result<(), String> {
+                let mut v: AnyVec<dyn TNone, M> = M::new_vec::<dyn TNone, T>(0);
+                for i in 0..6 {
+                    v.push(AnyValueWrapper::new(T::make(id(i))));
+                }
+                let mut want: Vec<Id> = (0..6).map(id).collect();
+                let mut got: Vec<Result<Id, u64>> = Vec::new();
+                {
+                    let mut t = v.downcast_mut::<T>().unwrap();
+                    if what < 2 {
+                        let mut d = t.drain(1..4);
+                        got.extend(d.next().map(|x| x.probe()));
+                        if what == 0 { t.reserve(40) } else { t.reserve_exact(33) }
+                        got.extend(d.next().map(|x| x.probe()));
+                        got.extend(d.next_back().map(|x| x.probe()));
+                        drop(d);
+                        want.drain(1..4);
+                    } else {
+                        let repl: Vec<T> = (10..13).map(|i| T::make(id(i))).collect();
+                        let mut d = t.splice(1..3, repl);
+                        got.extend(d.next().map(|x| x.probe()));
+                        if what == 2 {
+                            t.reserve(40);
+                        } else {
+                            // growth through the spare capacity API only: nothing is written, only the block moves
+                            let c = t.capacity();
+                            t.reserve_exact(c + 9);
+                        }
+                        got.extend(d.next_back().map(|x| x.probe()));
+                        drop(d);
+                        want.splice(1..3, (10..13).map(id));
+                    }
+                }
+                let yielded: Vec<Result<Id, u64>> = if what < 2 { vec![Ok(id(1)), Ok(id(2)), Ok(id(3))] } else { vec![Ok(id(1)), Ok(id(2))] };
+                if got != yielded {
+                    return Err(format!("items taken around the growth are {got:?}, expected {yielded:?}"));
+                }
+                match snap_ids::<T, _, _>(&v) {
+                    Ok(ids) if ids == want => Ok(()),
+                    other => Err(format!("vector afterwards {other:?}, expected {want:?}")),
+                }
+            });
+            monalloc::window_reset();
+            match r {
+                Ok(Ok(())) => {}
+                Ok(Err(m)) => sp.viol("garbage", opsig, m, &desc),
+                Err(m) => sp.viol("garbage", opsig, format!("panicked: {m}"), &desc),
+            }
+            sp.drain_alloc(opsig, &desc);
+            guardmem_scan(sp, opsig, &desc);
+            sp.drain_reg(opsig, &desc);
+            sp.ctx.stats.bump("live_handle_growths", 1);
+            sp.done(&desc, true, opsig);
+        }
+    }
+    fn guardmem_scan(sp: &mut Sp, opsig: &str, desc: &str) {
+        hvcore::guard::scan();
+        for v in reg::take_violations() {
+            sp.viol(v.kind, opsig, v.detail, desc);
+        }
+    }
+    #[cfg(feature = "alloc")]
+    {
+        use any_vec::mem::Heap;
+        if !sp.ctx.tool_mode {
+            monalloc::set_mode(monalloc::MODE_GUARD);
+        }
+        run::<W8d, Heap>(&mut sp);
+        run::<U1d, Heap>(&mut sp);
+        run::<S24d, Heap>(&mut sp);
+        run::<L160d, Heap>(&mut sp);
+        run::<B8, Heap>(&mut sp);
+        if !sp.ctx.tool_mode {
+            monalloc::set_mode(monalloc::MODE_OFF);
+        }
+    }
+    run::<W8d, GuardMem>(&mut sp);
+    run::<P3d, GuardMem>(&mut sp);
+    run::<S24d, GuardMem>(&mut sp);
+    run::<L160d, GuardMem>(&mut sp);
+}
